@@ -101,6 +101,17 @@ CLAIMED = {
         note="Assumed: (id_characteristic, step) is a key of the characteristic table and the own row exists (hypotheses of the "
              "property); pandas merge / boolean-mask compression semantics as stated in pyvc.tabletheory. Not decided: spline "
              "characteristics (create_trafo_characteristic_object), tap2 columns."),
+    "C25": dict(
+        text="Proof over standard types given as dicts with symbolic values and symbolic presence of every optional parameter (line, "
+             "trafo, trafo3w): the real create_std_type / load_std_type / rename_std_type / copy_std_types return the type data "
+             "unchanged (every parameter, no extra ones), rename removes the old name and renames the references in the element table; "
+             "the real change_std_type sets every column the type defines to the type's value, leaves the other columns and all other "
+             "rows unchanged and sets std_type, whatever the row held before; the real create_line / create_transformer / "
+             "create_transformer3w hand every parameter the type defines (that is a column of the element table) to the element table "
+             "with the type's value.",
+        note="Assumed: element tables have the documented columns; zero-sequence line parameters come together; _set_entries / "
+             "pd.DataFrame(entries) write the dict they receive. Not decided: fuse types, parameter_from_std_type, the calculation "
+             "reading the table (C02)."),
 }
 
 NOT_APPLICABLE = {
